@@ -219,6 +219,12 @@ def solve_scipy(
     if x_final is not None and scipy_constraints:
         for c in scipy_constraints:
             c_val = c["fun"](result.x)
+            if not np.isfinite(c_val):
+                # The constraint function is undefined at the returned point (e.g. sqrt or
+                # log of a negative number): the constraint cannot be called satisfied
+                max_violation = float("inf")
+                constraints_violated = True
+                continue
             # Scaled tolerance based on constraint magnitude
             scaled_tol = atol + rtol * max(1.0, abs(c_val))
 
